@@ -85,9 +85,14 @@ func (c *Client) Handshake() error {
 			if err != nil {
 				// Store the error before publishing clientStateError so concurrent callers cannot observe an uninitialized result.
 				c.err = err
-				if c.state.CompareAndSwap(clientStateHandshaking, clientStateError) {
-					c.hs = nil
-					c.ss = nil
+				// Clear the session before publishing clientStateError: once that
+				// state is visible a concurrent Close no longer waits for
+				// handshakeDone and reads c.ss. If Close already took over, it does
+				// wait, so put back what the handshake built for it to tear down.
+				hs, ss := c.hs, c.ss
+				c.hs, c.ss = nil, nil
+				if !c.state.CompareAndSwap(clientStateHandshaking, clientStateError) {
+					c.hs, c.ss = hs, ss
 				}
 			}
 			verifhook.At("transport.Client.Handshake.beforeDone")
